@@ -72,6 +72,8 @@ static void handle(const verif::Tokens& t, std::ostream& o)
     o << " XP "; show_vec(o, tp);
     o << " XR "; show_vec(o, tr);
     o << " XT "; show_vec(o, tt);
+    o << " TW";
+    transfer_twins_sections(o, transfer.get_mat_prol(), transfer.get_mat_rest(), transfer.get_mat_trunc(), xc, yf);
     return;
   }
   if(op == "childmap")
@@ -97,6 +99,8 @@ static void handle(const verif::Tokens& t, std::ostream& o)
     if(op == "gforbid") { global_transfer_forbidden(o, which, prol, rest, trunc, xc, yf); return; }
     o << "G";
     global_transfer_sections(o, prol, rest, trunc, xc, yf);
+    o << " TW";
+    transfer_twins_sections(o, prol, rest, trunc, xc, yf);
     return;
   }
   if(op == "dump" || op == "fe" || op == "feo")
